@@ -92,7 +92,8 @@ where
     {
         self.0
             .as_ref()
-            .and_then(move |eps| {
+            // an absent derivative (all zeros) maps to an absent derivative
+            .map_or(Some(Derivative::none()), move |eps| {
                 let (nrows, ncols) = eps.shape_generic();
                 let mut res: Matrix<MaybeUninit<T2>, R, C, _> = Matrix::uninit(nrows, ncols);
 
@@ -107,9 +108,8 @@ where
                 }
 
                 // Safety: res is now fully initialized.
-                Some(unsafe { res.assume_init() })
+                Some(Derivative::some(unsafe { res.assume_init() }))
             })
-            .map(Derivative::some)
     }
 
     pub fn derivative_generic(r: R, c: C, i: usize) -> Self {
